@@ -211,9 +211,10 @@ type unitOutcome struct {
 
 // manager drives one worker slot.
 type manager struct {
-	id int
-	c  *coord
-	p  *proc
+	id  int
+	c   *coord
+	p   *proc                // owned by the manager goroutine
+	cur atomic.Pointer[proc] // the same, for the watchdog goroutine
 	// progress tracking for the watchdog
 	inUnit   atomic.Bool
 	last     atomic.Int64
@@ -233,6 +234,7 @@ func (m *manager) ensure() error {
 		return err
 	}
 	m.p = p
+	m.cur.Store(p)
 	return nil
 }
 
@@ -248,12 +250,12 @@ func (m *manager) watch(stop <-chan struct{}) {
 				continue
 			}
 			if time.Since(time.Unix(0, m.last.Load())) > time.Duration(m.wd.Load()) {
-				if p := m.p; p != nil && m.killedBy.CompareAndSwap(0, 1) {
+				if p := m.cur.Load(); p != nil && m.killedBy.CompareAndSwap(0, 1) {
 					m.rssAtKill.Store(int64(rssBytes(p.cmd.Process.Pid)))
 					_ = p.cmd.Process.Kill()
 				}
 			} else if dl := m.hardDL.Load(); dl > 0 && time.Now().UnixNano() > dl {
-				if p := m.p; p != nil && m.killedBy.CompareAndSwap(0, 2) {
+				if p := m.cur.Load(); p != nil && m.killedBy.CompareAndSwap(0, 2) {
 					_ = p.cmd.Process.Kill()
 				}
 			}
@@ -333,6 +335,7 @@ func (m *manager) run(u unit) (out unitOutcome, err error) {
 			m.inUnit.Store(false)
 			m.p.stop()
 			m.p = nil
+			m.cur.Store(nil)
 			return out, fmt.Errorf("worker %d: cannot send unit: %v", m.id, werr)
 		}
 		finished, recycleAt := false, -1
@@ -417,6 +420,7 @@ func (m *manager) run(u unit) (out unitOutcome, err error) {
 		// the worker is gone (killed by the watchdog, died, or recycled itself)
 		p := m.p
 		m.p = nil
+		m.cur.Store(nil)
 		p.stdin.Close()
 		_ = p.cmd.Wait()
 		p.ctlF.Close()
